@@ -645,9 +645,6 @@ def const_2d(check):
                     if m and m.group("name").startswith("d"):
                         mp[aid] = alpha
                 return A.subst(expr, mp) if mp else expr
-            gz = all(const(r.expr).is_zero() for r in stages["calc_grad"] + stages["calc_bc_grad"])
-            f = proj.resolve(ci, "interp_face")
-            check.record("GRAD-CONST", "modeldisc.fvm2dcart gradients [%s]" % bname, gz, "all x / y face differences (closures included) vanish for constant data", proj.func("modeldisc.fvm2dcart.calc_grad").loc(), key="grad2d")
 
             def zg(expr):
                 mp = {}
@@ -656,6 +653,12 @@ def const_2d(check):
                     if m and (m.group("name").startswith("xg_") or m.group("name").startswith("yg_")):
                         mp[aid] = A.const(0)
                 return A.subst(expr, mp) if mp else expr
+            # a closure may copy entries of the difference arrays themselves (linear extrapolation from the nearest interior
+            # face): by induction over the stores in statement order every entry read is the zero of the allocation or was
+            # written by an earlier relation, so the first relation that does not vanish with those entries at 0 really does not
+            gz = all(const(zg(r.expr)).is_zero() for r in stages["calc_grad"] + stages["calc_bc_grad"])
+            f = proj.resolve(ci, "interp_face")
+            check.record("GRAD-CONST", "modeldisc.fvm2dcart gradients [%s]" % bname, gz, "all x / y face differences (closures included) vanish for constant data", proj.func("modeldisc.fvm2dcart.calc_grad").loc(), key="grad2d")
             okr = gz and all(A.equal(const(zg(r.expr)), alpha) for r in stages["interp_face"])
             check.record("RECON-CONST", "%s [%s]" % (ci.qualname, bname), okr, "2D left / right face states return the cell value for constant data (%d relations)" % len(stages["interp_face"]), f.loc(), key="recon2d")
 
